@@ -1275,7 +1275,9 @@ def _e2e_cases(case):
                 for s_ in _SUB_VALUES[case]:
                     for rt_ in ("unset", None, 0, 0.25):
                         d = dict(rng.choice(names))
-                        if any(ord(ch) > 126 for g in d["glyphs"] for ch in g):
+                        # (a font holding nothing but .notdef cannot be read back by fontTools - cffLib charset AttributeError - so the
+                        # reload inside the glyph-name step fails for reasons that are not this property's: keep one named glyph)
+                        if not d["glyphs"] or any(ord(ch) > 126 for g in d["glyphs"] for ch in g):
                             continue
                         d.update(opt=o, ver=v, sub=s_, rt=rt_, upn=rng.choice([None, False, True]))
                         out.append(d)
